@@ -170,13 +170,13 @@ def walk_traces(exe, wd, prop, tier):
     (sends = the mapper's answers; fresh after tablet mode; nothing held at tablet-on) beyond the handful of layouts Loop.tla enumerates schedules for."""
     import families as F
     thorough = tier == "thorough"
-    n = 120 if not thorough else 1200
+    n = 120 if not thorough else 600
     jobs = []
     fam = F.small_family("lw", F.anyl, 1, 60 if not thorough else 600, None, 0, 0, ones=False)[:n // 2] + \
         F.small_family("lwabs", F.has_abs, 1, 60 if not thorough else 600, None, 0, 0, ones=False)[:n // 4] + F.abs_cross(every=9 if not thorough else 2)[:n // 4]
     sd = 0 if not thorough else seed()
     for i, j in enumerate(fam):
-        jobs.append({"id": "LW-%s" % j["id"], "layout": j["layout"], "keys": "auto", "maxheld": 4 + i % 2, "steps": 200 if not thorough else 600, "seed": 1000 * sd + i,
+        jobs.append({"id": "LW-%s" % j["id"], "layout": j["layout"], "keys": "auto", "maxheld": 4 + i % 2, "steps": 200 if not thorough else 400, "seed": 1000 * sd + i,
                      "via": "loop", "out": "looptrace", "noise": i % 4, "ra_pct": 4 if prop in ("C12", "C06") else 2})
     traces = []
     nch = max(1, min(PROCS, len(jobs) // 8))
@@ -423,7 +423,7 @@ def variants(prop, tier, cases):
         out = [dict(c, faults="all") for c in cases[::step]]
     # the same runs one level lower: the REAL driver (mio, evdev-format reads, uinput-format writes) with the three system
     # calls it makes answered by the same scripted environment; MSC/SYN framing, auto-repeat and unnamed-key noise rotate
-    stride = {"quick": 3, "thorough": 1}[tier] if prop != "C18" else 1      # (C18's loop-level part is about the real driver only)
+    stride = {"quick": 3, "thorough": 2}[tier] if prop != "C18" else 1      # (C18's loop-level part is about the real driver only)
     # an injected write failure carries EIO, EAGAIN or ENODEV in turn (the two the readers treat as "no data" / "device gone")
     out += [dict(c, id=c["id"] + "-sys%d" % (i % 4), mode="sys", noise=i % 4, werr=[5, 11, 19][(i // 3) % 3]) for i, c in enumerate(out[::stride])]
     return out
@@ -522,7 +522,7 @@ def check(prop, tier, replay_file=None):
             "rule": "states/transitions: TLC model checking of spec/Loop.tla (loop + environment, design-level invariants incl. NoLostWakeup and SendsAreMapperOutputs) for the listed "
                     "configurations; every finished behaviour = one schedule (all splittings of the key histories into arrivals before polls and during drains, both device orders, "
                     "time-outs, one interruption, every position of end-of-device); each schedule is run on the REAL loop under the scripted driver and the recorded call trace is "
-                    "validated line by line by TLC against spec/LoopTrace.tla; a third of the runs (thorough: all) are repeated under the REAL driver (mio, DevInputReader, TabletModeSwitchReader, "
+                    "validated line by line by TLC against spec/LoopTrace.tla; a third of the runs (thorough: half) are repeated under the REAL driver (mio, DevInputReader, TabletModeSwitchReader, "
                     "DevInputWriter) with its epoll_wait/read/write calls answered by the same scripted environment and evdev-style framing noise; "
                     "traces_validated_against_impl = traces fully consumed and judged",
         }
